@@ -7,6 +7,7 @@ REGISTRY = {
     "C06": "core",
     "C10": "core",
     "C12": "c12",
+    "C13": "core",
     "C16": "c16",
     "C20": "core",
     "C11": "core",
